@@ -256,6 +256,13 @@ def replay(data):
     ta, tb = TimingData(sm), TimingData(out)
     if (list(ta.bpms), list(ta.stops), list(ta.delays), ta.offset) != (list(tb.bpms), list(tb.stops), list(tb.delays), tb.offset):
         bad = True
+    shared = []
+    if st is not None and (out is st or out.charts is st.charts or any(a is b for a in out.charts for b in st.charts)):
+        shared.append("result shares an object with the simfile template")
+    if any(a is b for a in out.charts for b in sm.charts) or (ct is not None and any(a is ct for a in out.charts)):
+        shared.append("result shares a chart object with the source / chart template")
+    if shared:
+        return True, "; ".join(shared)
     return bad, f"source {dict(sm)} -> result keys {list(out.keys())}; charts {[dict(c) for c in out.charts]}"
 
 
